@@ -23,3 +23,9 @@ add("C04", "model_checking", "exhaustive enumeration of enabled operation interl
     "Every enabled sequence up to depth 5 (thorough 7) of {create X,Y,G,G/s; write X,Y; attributes on X,Y,G; delete attribute; hard links; resize} in 4 configurations (superblock 0/2/3, contiguous or chunked X) from 3 start states (empty, X one attribute short of dense storage, X dense); after each operation the dump of every object not aimed at must equal its dump before, and the file must open. Purely differential: no expected values.",
     "Trusted: the read API as observer. Bound: depth 5/7, one size per object.",
     "DESIGN.md §5 C04", "E1-sequences")
+ENGINES.append({"name": "E4-grid-files", "path": "/verif/harness/root/c01_test.go", "serves_properties": ["C01", "C09", "C12"],
+  "kind_free_text": "exhaustive enumeration of explicit configuration grids; every grid point is one create/write/close/reopen/read execution of the real library"})
+add("C01", "exploration", "exhaustive enumeration of a type x superblock x layout x shape x chunk-shape x data-pattern grid with the written slice as reference",
+    "Grid A: 18 element types x superblock {0,2,3} x 15 layouts (contiguous, single chunk, many chunks with partial edges, filtered) x 3 data patterns (index-coded, extremes incl. NaN payloads, >2^31, 2^53+1; alternating bytes) x 2 paths; grid B: {int32,float64,uint16} x every shape of rank<=3 (thorough 4) with extents from {1,2,3,5,7} x every chunk shape from {1,2,3,full} per dimension x 3 superblock versions; grid C: two compound types. After close and reopen: path, shape, element class/size/sign, and every typed read must equal the written values bit-exactly; a typed read that exists for the type in the simplest configuration must not fail in any other.",
+    "Trusted: harness-side generation of expected float64 widening (same Go conversion). 'Typed read exists' is defined differentially from the simplest configuration of the same type.",
+    "DESIGN.md §5 C01", "E4-grid-files")
